@@ -50,6 +50,11 @@ func scenario(w *sim.World) {
 		}
 	}
 	wd := env.NewWorld(w)
+	if w.Choose(sim.KCfg, 2) == 1 {
+		// injected refusals: an environment resource aborts an attempt at a drawn operation (no step in the spec)
+		wd.FaultBudget = 1 + w.Choose(sim.KCfg, 6)
+		w.Probe("env_refusals_enabled")
+	}
 	p := envsys.NewPBKVS(wd, nr, nc, explore, input)
 	desc := fmt.Sprintf("replicas=%d clients=%d exploreFail=%v ops=%d", nr, nc, explore, nOps)
 	lastDesc = desc
